@@ -108,16 +108,20 @@ func handleLRange(params internal.HandlerFuncParams) ([]byte, error) {
 	if err != nil {
 		return nil, fmt.Errorf("end index must be an integer")
 	}
+	// If start is still < 0, clamp it to the first element of the list
+	if start < 0 {
+		start = 0
+	}
 	// If end is < 0, calculate it from the end of the list
 	if end < 0 {
-		end = len(list) - end
+		end = len(list) + end
 	}
-	// If end is greater than list length, set it to the last element of the list
-	if end > len(list) {
+	// If end is beyond the last element, set it to the last element of the list
+	if end > len(list)-1 {
 		end = len(list) - 1
 	}
 
-	if start > end || start > len(list) {
+	if start > end || start > len(list)-1 {
 		return []byte("*0\r\n"), nil
 	}
 
